@@ -7,6 +7,7 @@ import numpy as np
 
 from ..lib import core
 from ..lib.core import Failure, Disagreement
+from ..extract import viewshape as _ex
 
 PROP = "C06"
 LEAN_MODULE = "NixModel.Props.C06"
@@ -20,6 +21,14 @@ THEOREMS = [
     "Nix.C06.C06_view_read",
     "Nix.C06.C06_write_exact",
     "Nix.C06.C06_array",
+    # the model is the source: Generated/ViewShape.lean (compiled from the Python AST) = Pure/DataView.lean
+    "Nix.C06.C06_source_init",
+    "Nix.C06.C06_source_expand",
+    "Nix.C06.C06_source_transform",
+    "Nix.C06.C06_source_read_write",
+    "Nix.C06.C06_source_single",
+    "Nix.C06.C06_source_get_slice",
+    "Nix.C06.C06_generated_view_read",
 ]
 ASSUMPTIONS = [
     "array content is not modelled here (C01): reads and writes are described by the ordered list of parent "
@@ -33,6 +42,12 @@ ASSUMPTIONS = [
 ]
 TRUSTED_EXTRA = ["no generated tables: the model of data_view.py is hand-written and tied by differential "
                  "execution (exhaustive over small shapes in the thorough tier)"]
+
+
+
+def extract(repo):
+    return _ex.extract(repo)
+
 
 SITE_VIEW = "nixio/data_view.py"
 SITE_ARRAY = "nixio/data_array.py / nixio/hdf5/h5dataset.py"
